@@ -650,6 +650,66 @@ func e4StatusAtRelistCase(seed uint64, n int) Case {
 	}}
 }
 
+
+// e4BigCollectionCase: a collection of several hundred to a few thousand objects
+// behind an API server that honours limit/continue, with a watch that never
+// delivers anything.  Every completed list leaves the cache equal to the
+// server, also for objects far down the collection.
+func e4BigCollectionCase(seed uint64, n int) Case {
+	id := fmt.Sprintf("E4/big-collection/%d/%d", seed, n)
+	size := []int{520, 1003, 2500}[n%3]
+	return Case{ID: id, Desc: map[string]interface{}{"seed": seed, "n": n, "objects": size, "what": "large collection, silent watch, server honours limit/continue"}, Bubble: true, Run: func(r *Res) {
+		rng := kit.NewRng(kit.Mix(seed, uint64(n)+4900))
+		core := kit.NewCore(&kit.Plan{Seed: rng.U64(), PYield: 20})
+		srv := kit.NewPodServer(core)
+		for i := 0; i < size; i++ {
+			srv.Put(kit.Pod(fmt.Sprintf("n%d", i%3), fmt.Sprintf("p%04d", i), "", map[string]string{"l": "x"}))
+		}
+		srv.WatchPlan = func(int) kit.WatchFault { f := kit.NoWatchFault(); f.Block = true; return f }
+		P := 10 * time.Second
+		g, err := newCtlRig(core, srv, P, nil)
+		if err != nil {
+			r.Inc(err.Error())
+			return
+		}
+		defer g.shutdown(r, "C12")
+		if !waitCh(g.ctl.Ready(), virtBound) {
+			r.V("C03", "never-ready", "controller not ready")
+			return
+		}
+		for round := 0; round < 3; round++ {
+			g.barrier()
+			want := kit.SnapOf(srv.Objects())
+			got, _ := cacheSnap(g.ctl.Cache())
+			r.Add("per-list-checks", 1)
+			if !got.Equal(want) {
+				missing := 0
+				for k := range want {
+					if _, ok := got[k]; !ok {
+						missing++
+					}
+				}
+				r.V("C03", "not-converged-after-relist", "collection of %d objects, watch silent, round %d: after a completed list the cache holds %d objects, the server %d (%d missing from the cache)", size, round, len(got), len(want), missing)
+				return
+			}
+			// changes everywhere in the collection, invisible to the (silent) watch
+			for i := 0; i < 25; i++ {
+				k := rng.Intn(size + 20)
+				ns, nm := fmt.Sprintf("n%d", k%3), fmt.Sprintf("p%04d", k)
+				if srv.Has(ns, nm) && rng.Chance(30) {
+					srv.Delete(ns, nm)
+				} else {
+					srv.Put(kit.Pod(ns, nm, "", map[string]string{"l": "y"}))
+				}
+			}
+			time.Sleep(P + P/5 + time.Second)
+		}
+		r.Add("big-collection-cases", 1)
+		r.Key(id)
+		r.Sample = map[string]interface{}{"objects": size, "lists": len(srv.Lists())}
+	}}
+}
+
 func init() {
 	register("E4", func(tier string, seed uint64) []Case {
 		var cases []Case
@@ -671,6 +731,9 @@ func init() {
 		}
 		for i := 0; i < tierPick(tier, 72, 1440); i++ {
 			cases = append(cases, e4StatusAtRelistCase(seed, i))
+		}
+		for i := 0; i < tierPick(tier, 6, 60); i++ {
+			cases = append(cases, e4BigCollectionCase(seed, i))
 		}
 		return cases
 	})
